@@ -264,6 +264,14 @@ fn conn_history(seed: u64, idx: usize, thorough: bool, out: &mut impl Write) {
                     c.s.spawn(0, h, true, &[CVal::new(Ty::A, 5)], None);
                 }
             }
+            5 => {
+                // a reconnect inside one frame: the transport is removed and a new one inserted before the client runs again
+                let cl = rng.range(1, nclients as usize) as u32;
+                if started[cl as usize] && c.s.peers[cl as usize].app.world().contains_resource::<bevy_renet::renet::transport::NetcodeClientTransport>() {
+                    c.s.disconnect(cl);
+                    c.s.connect(cl);
+                }
+            }
             4 => {
                 // a join attempt that ends without ever connecting (refused / timed out / abandoned at renet level)
                 let cl = rng.range(1, nclients as usize) as u32;
@@ -283,6 +291,35 @@ fn conn_history(seed: u64, idx: usize, thorough: bool, out: &mut impl Write) {
         }
     }
     c.lockstep(12);
+    // a large snapshot takes many frames to cross the channel: the session is not drained before every connected client
+    // has seen the end of the snapshot it asked for (bounded wait)
+    for _ in 0..600 {
+        let mut waiting = false;
+        for p in 1..=nclients {
+            let frames: Vec<&serde_json::Value> = c.s.trace.iter().filter(|v| v["ev"] == "frame" && v["peer"] == p && !v["state"].is_null()).collect();
+            let Some(last) = frames.last() else { continue };
+            if last["state"]["client_state"] != "Connected" || last["state"]["client_connected"] != true {
+                continue;
+            }
+            let mut got = false;
+            for f in frames.iter().rev() {
+                if f["state"]["client_state"] != "Connected" && f["state"]["client_state"] != "Connecting" {
+                    break;
+                }
+                if f["recv"].as_array().map(|a| a.iter().any(|m| m["msg"]["k"] == "finsync")).unwrap_or(false) {
+                    got = true;
+                    break;
+                }
+            }
+            if !got {
+                waiting = true;
+            }
+        }
+        if !waiting {
+            break;
+        }
+        c.lockstep(1);
+    }
     let d = c.drain(60);
     c.s.trace.push(json!({"ev":"drain","quiescent":d.0,"rounds":d.1,"final":true}));
     let panicked = c.s.panicked.clone();
@@ -438,21 +475,43 @@ fn history(family: &str, seed: u64, idx: usize, thorough: bool, out: &mut impl W
             }
             let d = c.drain(40);
             c.s.trace.push(json!({"ev":"drain","quiescent":d.0,"rounds":d.1}));
-            let phases = if thorough { c.rng.range(2, 6) } else { c.rng.range(1, 3) };
+            let phases = if thorough { c.rng.range(3, 7) } else { c.rng.range(2, 5) };
+            // what each peer wrote last to each key, in any earlier phase
+            let mut own_last: std::collections::BTreeMap<(u32, u32, &'static str), CVal> = Default::default();
+            let mut prev_key: Option<(u32, Ty)> = None;
             for _ in 0..phases {
-                let writer = c.any_peer();
-                let h = *c.rng.pick(&c.live.clone());
-                let ty = *c.rng.pick(&SIMPLE_TYS);
-                let nwrites = c.rng.range(1, 6);
+                let mut writer = c.any_peer();
+                // often the key of the previous phase again, with another writer
+                let (h, ty) = match (prev_key, c.rng.chance(2, 3)) {
+                    (Some(k), true) => k,
+                    _ => (*c.rng.pick(&c.live.clone()), *c.rng.pick(&SIMPLE_TYS)),
+                };
+                prev_key = Some((h, ty));
+                // ... and often a peer that has been the writer of this key before (A, then B, then A again)
+                let earlier: Vec<u32> = own_last.keys().filter(|k| k.1 == h && k.2 == ty.name()).map(|k| k.0).collect();
+                if !earlier.is_empty() && c.rng.chance(1, 2) {
+                    writer = *c.rng.pick(&earlier);
+                }
+                let mut nwrites = c.rng.range(1, 6);
+                // a peer that simply puts back the value it had written the last time it was the writer
+                let back = own_last.contains_key(&(writer, h, ty.name())) && c.rng.chance(1, 2);
+                if back {
+                    nwrites = 1;
+                }
                 c.s.trace.push(json!({"ev":"phase","writer":writer,"h":h,"ty":ty.name()}));
                 let mut last_v: Option<CVal> = None;
-                for _ in 0..nwrites {
-                    // sometimes the application re-writes the value it wrote last (touching it through DerefMut)
+                for k in 0..nwrites {
+                    // sometimes the application re-writes the value it wrote last (touching it through DerefMut),
+                    // sometimes a peer returns to the value it wrote the last time it was the writer of this key
                     let v = match (&last_v, c.rng.chance(1, 4)) {
                         (Some(v), true) => v.clone(),
-                        _ => small_val(&mut c.rng, ty),
+                        _ => match (own_last.get(&(writer, h, ty.name())), k == 0 && (back || c.rng.chance(1, 3))) {
+                            (Some(v), true) => v.clone(),
+                            _ => small_val(&mut c.rng, ty),
+                        },
                     };
                     last_v = Some(v.clone());
+                    own_last.insert((writer, h, ty.name()), v.clone());
                     c.s.write(writer, h, &v, &[]);
                     // unrelated traffic on other entities from other peers
                     if c.rng.chance(1, 4) {
@@ -496,6 +555,7 @@ fn history(family: &str, seed: u64, idx: usize, thorough: bool, out: &mut impl W
             }
             let d = c.drain(40);
             c.s.trace.push(json!({"ev":"drain","quiescent":d.0,"rounds":d.1}));
+            let mut cur_parent: std::collections::BTreeMap<u32, u32> = Default::default();
             for _ in 0..rounds {
                 let p = c.any_peer();
                 let live = c.live.clone();
@@ -503,6 +563,30 @@ fn history(family: &str, seed: u64, idx: usize, thorough: bool, out: &mut impl W
                 let parent = *c.rng.pick(&live);
                 // no cycles: parent must not be a descendant of child — keep it simple: parent handle < child handle
                 if parent < child {
+                    // a move away and back in consecutive frames of the mover (relayed at once when the mover is a client)
+                    // while the other peers stand still: both links reach them in one batch
+                    if let (Some(&old), true) = (cur_parent.get(&child), c.rng.chance(1, 3)) {
+                        if old != parent {
+                            c.s.trace.push(json!({"ev":"consecutive_reparent","peer":p,"h":child,"back":true}));
+                            c.s.set_parent(p, child, parent);
+                            c.s.step(p);
+                            if p != 0 {
+                                c.s.step(0);
+                            }
+                            c.s.set_parent(p, child, old);
+                            c.s.step(p);
+                            if p != 0 {
+                                c.s.step(0);
+                            }
+                            let d = c.drain(60);
+                            c.s.trace.push(json!({"ev":"drain","quiescent":d.0,"rounds":d.1}));
+                            if !d.0 {
+                                break;
+                            }
+                            continue;
+                        }
+                    }
+                    cur_parent.insert(child, parent);
                     c.s.set_parent(p, child, parent);
                     // the same peer moves the same child again in the next frame (no other peer involved)
                     if c.rng.chance(1, 4) {
@@ -512,6 +596,7 @@ fn history(family: &str, seed: u64, idx: usize, thorough: bool, out: &mut impl W
                             let p2 = *c.rng.pick(&other);
                             c.s.trace.push(json!({"ev":"consecutive_reparent","peer":p,"h":child}));
                             c.s.set_parent(p, child, p2);
+                            cur_parent.insert(child, p2);
                         }
                     }
                 }
@@ -993,7 +1078,28 @@ fn main() {
                 continue;
             }
         }
-        history(&family, seed, i, thorough, &mut w);
+        // a history that cannot even be set up (a localhost port taken by another process between probing and binding
+        // panics inside the plugins' socket set-up, outside any frame) is started again; it says nothing about a property
+        let mut done = false;
+        for attempt in 0..4 {
+            let mut buf: Vec<u8> = vec![];
+            let r = std::panic::catch_unwind(std::panic::AssertUnwindSafe(|| history(&family, seed, i, thorough, &mut buf)));
+            match r {
+                Ok(()) => {
+                    w.write_all(&buf).unwrap();
+                    done = true;
+                    break;
+                }
+                Err(_) => {
+                    eprintln!("session: history {}-{}-{} aborted during set-up (attempt {}), starting it again", family, seed, i, attempt + 1);
+                    std::thread::sleep(std::time::Duration::from_millis(50));
+                }
+            }
+        }
+        if !done {
+            eprintln!("session: history {}-{}-{} could not be set up", family, seed, i);
+            std::process::exit(3);
+        }
         w.flush().unwrap();
     }
     std::process::exit(0);
